@@ -157,6 +157,11 @@ Definition lay_map (l : layout) (t : ity) (e : extents) (idx : list Z) : option 
 Record strided := { st_ext : extents; st_strides : list Z }.
 Definition strided_ctor (t : ity) (e : extents) (s : list Z) : strided :=
   {| st_ext := e; st_strides := map (cast t) s |}.
+(* layout_stride::mapping(): extents_type{} and the strides of layout_right::mapping<extents_type>()
+   (static_cast<index_type>(ext.rev_prod_of_extents(Is))...), fix d746fe9 *)
+Definition strided_default (t : ity) (p : pattern) : strided :=
+  {| st_ext := ext_default p;
+     st_strides := map (fun r => cast t (rev_prod t (ext_default p) r)) (seq 0 (length p)) |}.
 Definition strided_stride (m : strided) (r : nat) : res Z :=
   if (r <? rank (st_ext m))%nat then Ok (nth r (st_strides m) 0) else Contract.
 Definition strided_map (t : ity) (m : strided) (idx : list Z) : option Z :=
